@@ -39,11 +39,11 @@ import (
 // ---------------------------------------------------------------- fault zones
 
 // faults lists every scripted zone of a world: <fault>.test. on its own server.
-var faults = []string{"ok", "lag", "drop", "slow", "glacial", "tcok", "tcstall", "tcreset",
+var faults = []string{"ok", "multi", "lag", "drop", "slow", "glacial", "tcok", "tcstall", "tcreset",
 	"wrongid", "wrongq", "wrongonly", "garbage", "servfail", "refused", "mix", "flaky"}
 
 // recoverable faults: a conformant resolver can still obtain the answer.
-var recoverable = map[string]bool{"ok": true, "lag": true, "tcok": true, "wrongid": true, "wrongq": true}
+var recoverable = map[string]bool{"ok": true, "multi": true, "lag": true, "tcok": true, "wrongid": true, "wrongq": true}
 
 // zones whose resolution lasts about as long as the query budget
 var slowZone = map[string]bool{"drop": true, "slow": true, "glacial": true, "tcstall": true, "flaky": true}
@@ -147,6 +147,7 @@ type sysEnv struct {
 	baseAll int
 	nextID  uint32
 	cold    int
+	pair    int
 	serial  int
 	maxLat  time.Duration
 	inline  bool
@@ -156,7 +157,7 @@ var env *sysEnv
 
 const (
 	sysQueryTimeout    = 1200 * time.Millisecond
-	sysUpstreamTimeout = 250 * time.Millisecond
+	sysUpstreamTimeout = 500 * time.Millisecond
 	sysListenMargin    = 2 * time.Second
 )
 
@@ -332,11 +333,28 @@ func newSysEnv(kind string, dedupTimeout time.Duration) *sysEnv {
 		z.Add("*."+f+".test. 60 IN A "+zoneAddr, "*."+f+".test. 60 IN TXT \"t\"")
 		nsz.Add(host + " 60 IN A " + z.Servers[0].IP.String())
 	}
+	// pair zones: like the cold zones, but the zone holding their name servers'
+	// addresses (nsz2.test.) has one authority that refuses at once and one that is
+	// healthy but slow: a shared lookup collects the bad rcode first
+	nsz2 := e.w.AddZone("nsz2.test.", l3.ZoneOpts{})
+	nsz2.Servers[0].SetBehaviour(l3.Behaviour{Rcode: func(dns.Question) int { return dns.RcodeRefused }})
+	e.w.AddServer("nsz2.test.").SetBehaviour(l3.Behaviour{Delay: func(dns.Question, bool) time.Duration { return 300 * time.Millisecond }})
+	for i := 1; i <= coldZones; i++ {
+		f := fmt.Sprintf("pair%d", i)
+		host := fmt.Sprintf("pns%d.nsz2.test.", i)
+		z := e.w.AddZone(f+".test.", l3.ZoneOpts{NSHosts: []string{host}, NoGlue: true})
+		z.Add("*."+f+".test. 60 IN A "+zoneAddr, "*."+f+".test. 60 IN TXT \"t\"")
+		nsz2.Add(host + " 60 IN A " + z.Servers[0].IP.String())
+	}
 	for _, f := range faults {
 		z := e.w.AddZone(f+".test.", l3.ZoneOpts{})
 		z.Add("*."+f+".test. 60 IN A "+zoneAddr, "*."+f+".test. 60 IN TXT \"t\"")
 		s := z.Servers[0]
 		switch f {
+		case "multi": // one instant authority, two slow ones: hedged attempts that lose
+			for k := 0; k < 2; k++ {
+				e.w.AddServer(f + ".test.").SetBehaviour(l3.Behaviour{Delay: func(dns.Question, bool) time.Duration { return 300 * time.Millisecond }})
+			}
 		case "lag":
 			s.SetBehaviour(l3.Behaviour{Delay: func(dns.Question, bool) time.Duration { return 120 * time.Millisecond }})
 		case "drop":
@@ -823,6 +841,23 @@ func (e *sysEnv) build(g *group) {
 			o.startDelay = 8 * time.Millisecond
 			add(o, true)
 		}
+	case "cancelpair": // as cancellead, but the shared lookup has collected a REFUSED when its leader leaves
+		if g.zone == "pair" {
+			if e.pair < coldZones {
+				e.pair++
+				g.zone = fmt.Sprintf("pair%d", e.pair)
+			} else {
+				g.zone = "lag"
+			}
+		}
+		c := e.mk("msg", g.zone, "c"+g.tag, dns.TypeA)
+		c.cancelAfter = 150 * time.Millisecond
+		add(c, false)
+		for i := 1; i < g.n; i++ {
+			o := e.mk([]string{"udp", "tcp"}[i%2], g.zone, lbl(i), dns.TypeA)
+			o.startDelay = 8 * time.Millisecond
+			add(o, true)
+		}
 	case "hot": // a name answered before: the inline / wire hit path
 		for i := 0; i < g.n; i++ {
 			add(e.mk([]string{"udp", "tcp"}[i%2], g.zone, "hot", dns.TypeA), true)
@@ -961,7 +996,7 @@ func (e *sysEnv) judge(gs []*group) verdict {
 				}
 			case dns.RcodeServerFailure:
 				nSF++
-				if (recoverable[g.zone] || strings.HasPrefix(g.zone, "cold")) && !e.small {
+				if (recoverable[g.zone] || strings.HasPrefix(g.zone, "cold") || strings.HasPrefix(g.zone, "pair")) && !e.small {
 					softHit = true
 				}
 			default:
@@ -1106,7 +1141,14 @@ func execSys(f []string) vlib.Res {
 			for _, g := range src {
 				e.serial++
 				base := strings.SplitN(g.tag, "w", 2)[0]
-				g2 := &group{pattern: g.pattern, zone: g.zone, n: g.n, tag: fmt.Sprintf("%sr%d", base, e.serial)}
+				zone := g.zone
+				switch { // a fresh zone: the first run may have left cached failures behind
+				case strings.HasPrefix(zone, "cold"):
+					zone = "cold"
+				case strings.HasPrefix(zone, "pair"):
+					zone = "pair"
+				}
+				g2 := &group{pattern: g.pattern, zone: zone, n: g.n, tag: fmt.Sprintf("%sr%d", base, e.serial)}
 				e.build(g2)
 				again = append(again, g2)
 			}
@@ -1157,8 +1199,33 @@ func execSys(f []string) vlib.Res {
 		g, all := 0, 0
 		waitFor(6*time.Second, func() bool { g, all = sdnsGoroutines(); return g <= e.baseG+50 })
 		_, leased, inflight, _ := server.VerifC11UDP(e.srv)
+		// after the load: plain queries for a healthy zone must be answered promptly (a
+		// limiter whose slots leaked makes them wait for a slot until their deadline) …
+		healthy := 0
+		for try := 0; try < 2 && healthy != 3; try++ {
+			e.serial++
+			pg := &group{pattern: "distudp", zone: "ok", n: 3, tag: fmt.Sprintf("p%d", e.serial)}
+			e.build(pg)
+			e.launchShort([]*group{pg}, e.qto+500*time.Millisecond)
+			healthy = 0
+			for _, c := range pg.clients {
+				if len(c.replies) == 1 && c.replies[0].rcode == dns.RcodeSuccess {
+					healthy++
+				}
+			}
+		}
+		// … and every resolver limiter is empty again
+		var sa, sl, sp, s6, sz int
+		waitFor(5*time.Second, func() bool {
+			sa, sl, sp, s6, sz = resolver.VerifC11Slots(e.res)
+			return sa+sl+sp+s6+sz == 0
+		})
 		or := "ok"
 		switch {
+		case sa+sl+sp+s6+sz != 0:
+			or = fmt.Sprintf("FAIL sig=sys/drain/limiter-slot-leaked attempts=%d/%d lookups=%d probes=%d v6=%d zones=%d", sa, resolver.VerifC11AttemptCap(e.res), sl, sp, s6, sz)
+		case healthy != 3:
+			or = fmt.Sprintf("FAIL sig=sys/drain/healthy-query-failed-after-load answered=%d of 3", healthy)
 		case !q:
 			or = fmt.Sprintf("FAIL sig=sys/drain/not-quiesced leased=%d inflight=%d", leased, inflight)
 		case keys != 0:
